@@ -76,26 +76,36 @@ pub fn exec(words: &[&str], obs: &mut Obs) -> Option<String> {
 }
 
 pub fn tables() -> String {
+    // every module's probes run under catch_unwind: a probe that PANICS (e.g. a debug assertion of the
+    // library firing on a one-byte input) must not take the whole run down -- the previous table text is
+    // kept for that module by the caller and the panic is reported as a finding of its own
     let mut s = String::new();
-    s.push_str(&c01::tables());
-    s.push_str(&c02::tables());
-    s.push_str(&c03::tables());
-    s.push_str(&c04::tables());
-    s.push_str(&c05::tables());
-    s.push_str(&c06::tables());
-    s.push_str(&c07::tables());
-    s.push_str(&c08::tables());
-    s.push_str(&c09::tables());
-    s.push_str(&c10::tables());
-    s.push_str(&c11::tables());
-    s.push_str(&c12::tables());
-    s.push_str(&c13::tables());
-    s.push_str(&c14::tables());
-    s.push_str(&c15::tables());
-    s.push_str(&c16::tables());
-    s.push_str(&c17::tables());
-    s.push_str(&c18::tables());
-    s.push_str(&c19::tables());
-    s.push_str(&c20::tables());
+    s.push_str(&guarded_tables("C01", c01::tables));
+    s.push_str(&guarded_tables("C02", c02::tables));
+    s.push_str(&guarded_tables("C03", c03::tables));
+    s.push_str(&guarded_tables("C04", c04::tables));
+    s.push_str(&guarded_tables("C05", c05::tables));
+    s.push_str(&guarded_tables("C06", c06::tables));
+    s.push_str(&guarded_tables("C07", c07::tables));
+    s.push_str(&guarded_tables("C08", c08::tables));
+    s.push_str(&guarded_tables("C09", c09::tables));
+    s.push_str(&guarded_tables("C10", c10::tables));
+    s.push_str(&guarded_tables("C11", c11::tables));
+    s.push_str(&guarded_tables("C12", c12::tables));
+    s.push_str(&guarded_tables("C13", c13::tables));
+    s.push_str(&guarded_tables("C14", c14::tables));
+    s.push_str(&guarded_tables("C15", c15::tables));
+    s.push_str(&guarded_tables("C16", c16::tables));
+    s.push_str(&guarded_tables("C17", c17::tables));
+    s.push_str(&guarded_tables("C18", c18::tables));
+    s.push_str(&guarded_tables("C19", c19::tables));
+    s.push_str(&guarded_tables("C20", c20::tables));
     s
+}
+
+pub fn guarded_tables(id: &str, f: fn() -> String) -> String {
+    match guard(f) {
+        Ok(t) => t,
+        Err(()) => format!("-- TABLE-PROBE-PANICKED {}\n", id),
+    }
 }
